@@ -8,6 +8,7 @@
 import AgeModel.Extracted.CallOrder
 import AgeModel.Extracted.Consts
 import Proofs.GoTieScrypt
+import Proofs.GoTieScryptCtor
 namespace AgeModel
 namespace Tie.C10
 
@@ -73,6 +74,30 @@ theorem scrypt_Unwrap_alone (pw : Bytes) (maxWF : Int) (ss : List Format.Stanza)
       (fun _ _ _ => .error (.panic 99)) ⟨pw, maxWF⟩ (ss.map GoTie.toGoStanza) =
       .ok ([], some ⟨"age.(*ScryptIdentity).Unwrap", 0, []⟩) :=
   GoTie.scrypt_Unwrap_alone pw maxWF ss h hn
+
+/-! The constructors and setters of scrypt.go, translated on every run: the passphrase is stored
+byte for byte (the empty one is the only one refused), the defaults are 18 and 22, the setters
+accept exactly 1 … 30. -/
+
+theorem newScryptRecipient_tie (pw : Bytes) :
+    Extracted.age_NewScryptRecipient pw =
+      .ok (if pw = [] then (⟨[], 0⟩, some ⟨"age.NewScryptRecipient", 0, []⟩) else (⟨pw, 18⟩, none)) :=
+  GoTie.newScryptRecipient_tie pw
+
+theorem newScryptIdentity_tie (pw : Bytes) :
+    Extracted.age_NewScryptIdentity pw =
+      .ok (if pw = [] then (⟨[], 0⟩, some ⟨"age.NewScryptIdentity", 0, []⟩) else (⟨pw, 22⟩, none)) :=
+  GoTie.newScryptIdentity_tie pw
+
+theorem setWorkFactor_tie (r : Extracted.age_ScryptRecipient) (logN : Int) :
+    Extracted.age_ScryptRecipient_SetWorkFactor r logN =
+      if 1 ≤ logN ∧ logN ≤ 30 then .ok { r with workFactor := logN } else .error (.panic 0) :=
+  GoTie.setWorkFactor_tie r logN
+
+theorem setMaxWorkFactor_tie (i : Extracted.age_ScryptIdentity) (logN : Int) :
+    Extracted.age_ScryptIdentity_SetMaxWorkFactor i logN =
+      if 1 ≤ logN ∧ logN ≤ 30 then .ok { i with maxWorkFactor := logN } else .error (.panic 0) :=
+  GoTie.setMaxWorkFactor_tie i logN
 
 end Tie.C10
 end AgeModel
